@@ -324,7 +324,25 @@ def forward_subst(stmts: list[ast.stmt], pure_calls=(), keep: set[str] = frozens
 
 
 # ---------------------------------------------------------------------------------------
-def loops_to_comps(body: list[ast.stmt]) -> list[ast.stmt]:
+def _loads(nodes) -> dict[str, int]:
+    out: dict[str, int] = {}
+    for st in nodes:
+        for n in ast.walk(st):
+            if isinstance(n, ast.Name) and isinstance(n.ctx, ast.Load):
+                out[n.id] = out.get(n.id, 0) + 1
+    return out
+
+
+def _escapes(loop: ast.For, names, total: dict[str, int] | None) -> bool:
+    """a name bound by the loop (its target, a temporary of its body) is read outside the loop: a comprehension would not
+    leave it bound, so the loop is kept (`total` = reads per name in the whole function)"""
+    if total is None:
+        return False
+    inside = _loads([loop])
+    return any(total.get(x, 0) > inside.get(x, 0) for x in names)
+
+
+def loops_to_comps(body: list[ast.stmt], total: dict[str, int] | None = None) -> list[ast.stmt]:
     """accumulate loops -> comprehensions (list.append / dict[k] = v / set.add), one level"""
     out: list[ast.stmt] = []
     i = 0
@@ -414,6 +432,8 @@ def loops_to_comps(body: list[ast.stmt]) -> list[ast.stmt]:
                 reads = [n for st in stmts for n in ast.walk(st) if isinstance(n, ast.Name) and n.id == acc and isinstance(n.ctx, ast.Load)]
                 if len(reads) != 1:
                     ok = False
+            if ok and elt is not None and _escapes(loop, set(mapping) | {n.id for n in ast.walk(loop.target) if isinstance(n, ast.Name)}, total):
+                ok = False
             if ok and elt is not None:
                 gen = [ast.comprehension(target=loop.target, iter=loop.iter, ifs=[cond] if cond is not None else [], is_async=0)]
                 if kind == "counter":
@@ -430,13 +450,13 @@ def loops_to_comps(body: list[ast.stmt]) -> list[ast.stmt]:
                 out.append(new)
                 i += 2
                 continue
-        ext = _extend_loop(s)
+        ext = _extend_loop(s, total)
         out.append(ext if ext is not None else s)
         i += 1
     return out
 
 
-def _extend_loop(loop):
+def _extend_loop(loop, total=None):
     """for v in S: [x = E1;] [if C:] acc.append(E)   (acc built elsewhere)   ->   acc += [E for v in S if C]"""
     if not isinstance(loop, ast.For) or loop.orelse or not loop.body:
         return None
@@ -462,7 +482,7 @@ def _extend_loop(loop):
         return None
     acc = inner.value.func.value.id
     loopvars = {n.id for n in ast.walk(loop.target) if isinstance(n, ast.Name)}
-    if acc in loopvars or acc in mapping:
+    if acc in loopvars or acc in mapping or _escapes(loop, loopvars | set(mapping), total):
         return None
     elt = _Subst(mapping).visit(copy.deepcopy(inner.value.args[0]))
     c2 = _Subst(mapping).visit(copy.deepcopy(cond)) if cond is not None else None
@@ -477,6 +497,7 @@ def _extend_loop(loop):
 
 def normalise_loops(stmts: list[ast.stmt]) -> list[ast.stmt]:
     stmts = [copy.deepcopy(s) for s in stmts]
+    total = _loads(stmts)
 
     def rec(block):
         # inner blocks first: an inner accumulate loop becomes a comprehension before the outer loop is looked at
@@ -493,7 +514,7 @@ def normalise_loops(stmts: list[ast.stmt]) -> list[ast.stmt]:
             if isinstance(s, ast.Try):
                 for h in s.handlers:
                     h.body = rec(h.body)
-        return loops_to_comps(block)
+        return loops_to_comps(block, total)
     return rec(stmts)
 
 
